@@ -5,22 +5,13 @@ tree by tools/go2lean (spec specs/e2_pubcounts.json) and compared with the expec
 namespace Nsq.Tie.PubCounts
 
 /-- the loop of `clientV2.Stats(topicName)` over `c.pubCounts`, under `metaLock.RLock`: skip (`continue`) a key other
-than a non-empty filter, append `(topic, count)`, then EITHER leave the loop unconditionally (the tree before fix F49:
-`Nsq.Model.PubCounts.pubCountsOf false`, `Props.C13Pub.pub_counts_full_false_with_break`) OR leave it only when a
-filter was given (F49: `pubCountsOf true`, `pub_counts_complete_fixed`). Nothing else is accepted (a `continue` in
-place of the `break`, no `break` at all, another condition: the theorem fails and the model has to be looked at again). -/
-theorem statsPubCounts_eq :
-    Nsq.Gen.PubCounts.statsPubCounts = ([
-      "do c.metaLock.RLock()",
-      "assign pubCounts := make([]PubCount, 0, len(c.pubCounts))",
-      "range c.pubCounts",
-      "if len(topicName) > 0 && topic != topicName",
-      "branch continue",
-      "assign pubCounts = append(pubCounts, PubCount{ Topic: topic, Count: count, })",
-      "branch break",
-      "do c.metaLock.RUnlock()",
-      "stmt return stats"] : List String)
-    ∨ Nsq.Gen.PubCounts.statsPubCounts = ([
+than a non-empty filter, append `(topic, count)`, then leave the loop ONLY when a filter was given (fix F49 = /repo
+6fb5d96, committed: `Nsq.Model.PubCounts.pubCountsOf true`, `Props.C13Pub.pub_counts_complete_fixed`). The shape before
+F49 — the unconditional `break` (`pubCountsOf false`, `pub_counts_full_false_with_break`) — is no longer accepted (audit
+B12): with F49 reverted this tie breaks and `TestVerifE2PubCounts` reports `stats-pubcounts-break` (listed `fixed`) as a
+VIOLATION with the publish script. Nothing else is accepted either (a `continue` in place of the `break`, no `break` at
+all, another condition: the theorem fails and the model has to be looked at again). -/
+def statsLoopF49 : List String := [
       "do c.metaLock.RLock()",
       "assign pubCounts := make([]PubCount, 0, len(c.pubCounts))",
       "range c.pubCounts",
@@ -30,7 +21,15 @@ theorem statsPubCounts_eq :
       "if len(topicName) > 0",
       "branch break",
       "do c.metaLock.RUnlock()",
-      "stmt return stats"] : List String) := by decide
+      "stmt return stats"]
+
+theorem statsPubCounts_eq : Nsq.Gen.PubCounts.statsPubCounts = statsLoopF49 := by decide
+
+/-- COMPUTED: the `fixed` parameter of `Nsq.Model.PubCounts.pubCountsOf` for this tree
+(`Props.C13Pub.pub_counts_full_this_tree`) -/
+def treeFixed : Bool := Nsq.Gen.PubCounts.statsPubCounts == statsLoopF49
+
+theorem tree_fixed : treeFixed = true := by decide
 
 /-- `clientV2.PublishedMessage(topic, count)`: `c.pubCounts[topic] += count` under `metaLock` (model `publish`). -/
 theorem publishedMessage_eq : Nsq.Gen.PubCounts.publishedMessage = ([
